@@ -285,6 +285,9 @@ func init() {
 				e1runSP("list-tomb-n2-d3", "list", 2, 3, "mid", o, 1, 0, "tomb"),
 				e1runSP("doc-tomb-n2-d3", "doc", 2, 3, "", o, 1, 0, "tomb"),
 				e1runSP("map-tomb-n2-d4", "map", 2, 4, "", o, 1, 0, "tomb"),
+				e1runSP("list-live-n2-d3-2restores", "list", 2, 3, "", o, 2, 0, "live"), // a restored replica is exported and restored again
+				e1runSP("doc-live-n2-d2-2restores", "doc", 2, 2, "", o, 2, 0, "live"),
+				e1runS("counter-n2-d4-3restores", "counter", 2, 4, "", o, 3, 0),
 			}
 		} else {
 			p.BudgetS = 3300
@@ -331,6 +334,8 @@ func init() {
 				e1runS("map-n2-d4", "map", 2, 4, "tx", o, 1, 0),
 				e1runS("list-n2-d3", "list", 2, 3, "tx batch", o, 1, 0),
 				e1runS("doc-n2-d3", "doc", 2, 3, "tx", o, 1, 0),
+				e1runS("counter-n2-d3-2fails", "counter", 2, 3, "tx", o, 2, 0),
+				e1runSP("map-live-n2-d3-3fails", "map", 2, 3, "tx", o, 3, 0, "live"),
 				e1run("list-deep-n2-d2", "list", 2, 2, "batch", o, nil, "deep-list", 0),
 				e1run("doc-deep-n2-d2", "doc", 2, 2, "arr", o, nil, "deep-doc", 0),
 				e1run("list-skew-n3-d4", "list", 3, 4, "mid", o, nil, "skew", 0),
